@@ -16,7 +16,8 @@
     the forks is equal, the data stacks denote the same list of values, and every pair of
     corresponding forks restores the same list.  `every_opcode_respects_EnvRel` is the congruence
     that makes it usable: all 32 opcodes, run from related states, stay related.
-  * Oracle indexing.  `VM.step` keys the recorded native answers by the POLL number.  Jump
+  * Oracle indexing.  `VM.step` keys the recorded native answers by the POLL number
+    (`call_and_poll_indexing_agree`, `optimizeCodeOps_preserves_outputs_polls` translate).  Jump
     threading removes polls (a jump to a jump becomes one jump), so under poll indexing the
     optimised run would read the answers at shifted positions.  `stepC`/`loopC`/`historyC`
     (Model/OptVM.lean, defined through `VM.step`) run the same loop under `context.Background()`
@@ -31,6 +32,7 @@
 import Gojq.Proofs.OptSimPass
 import Gojq.Proofs.OptSimTurns
 import Gojq.Proofs.OptSimView
+import Gojq.Proofs.OptSimIndex
 namespace Gojq.C04Sim
 open Gojq Gojq.VM Gojq.OptVM
 
@@ -227,6 +229,48 @@ theorem optV_agrees_with_pass_model (c : Array Instr) :
     (Opt.optimizeCodeOps (c.map view)).map (Array.map normNop) = (optV c).map (Array.map view) :=
   optV_view c
 
+/-- The static scan can be run on the DUMPED instruction list (what a driver stream of the check
+    sees): `wfCheckView` on `c.map view` is `wfCheck c`. -/
+theorem static_scan_on_dump (c : Array Instr) : wfCheckView (c.map view) = wfCheck c :=
+  wfCheckView_view c
+
+/-- The two oracle indexings describe the same runs.  Every poll-indexed run of `VM.history` under a
+    context that is never cancelled is the call-indexed run under `callOracle` (the records read by
+    answer-consuming instructions, in order), and every call-indexed run is the poll-indexed run
+    under `pollOracle` (each poll gets the record at the current call index) — for every code, fuel,
+    number of calls and state. -/
+theorem call_and_poll_indexing_agree (code : Array Instr) (ext : Nat → ExtRec) (fuel n : Nat) (s : St) :
+    historyC code (callOracle code ext fuel n s) fuel n ⟨s.env, 0⟩ = history ⟨code, never, ext⟩ fuel n s ∧
+    history ⟨code, never, pollOracle code ext fuel n s⟩ fuel n ⟨s.env, 0⟩ = historyC code ext fuel n s :=
+  ⟨historyC_callOracle code ext fuel n s, history_pollOracle code ext fuel n s⟩
+
+/-- THE WHOLE PASS, on `VM.history` itself (poll-indexed oracle, `context.Background()`): if the first
+    `n` calls of `Next` on `c` under the recorded answers `ext` end properly, then the optimised
+    code returns the same `n` outcomes under the oracle that presents THE SAME answers, in the same
+    order, at the polls where the optimised run consumes them —
+    `pollOracle c' (callOracle c ext …)`: the answers the original run consumed (`callOracle`),
+    re-keyed to the polls of the optimised run (`pollOracle`).  The re-keying is needed because
+    jump threading removes polls. -/
+theorem optimizeCodeOps_preserves_outputs_polls (c c' : Array Instr) (hwf : wfCheck c = true)
+    (hopt : optV c = some c') (ext : Nat → ExtRec) (hext : ExtClean ext) (fuel n : Nat)
+    (input : JV) (vars : List JV)
+    (hp : ∀ o ∈ history ⟨c, never, ext⟩ fuel n (initJ input vars), o.proper = true) :
+    history ⟨c', never, pollOracle c' (callOracle c ext fuel n (initJ input vars)) fuel n (initJ input vars)⟩
+        fuel n (initJ input vars) =
+      history ⟨c, never, ext⟩ fuel n (initJ input vars) := by
+  have hs0 : (⟨(initJ input vars).env, 0⟩ : St) = initJ input vars := rfl
+  have hA := historyC_callOracle c ext fuel n (initJ input vars)
+  have hB := history_pollOracle c' (callOracle c ext fuel n (initJ input vars)) fuel n (initJ input vars)
+  rw [hs0] at hA hB
+  have hclean : ExtClean (callOracle c ext fuel n (initJ input vars)) := by
+    intro k B
+    rcases callOracle_mem c ext fuel n (initJ input vars) k with ⟨j, hj⟩ | hnone
+    · rw [hj]; exact hext j B
+    · unfold ExtOK; rw [hnone]; trivial
+  have hmain := optimizeCodeOps_preserves_outputs c c' hwf hopt _ hclean fuel n input vars
+    (by rw [hA]; exact hp)
+  rw [hB, hmain, hA]
+
 /-- `loopC` IS `VM.loop`'s turn function: one turn of `stepC` is one turn of `VM.step` under a
     never-cancelled context, with the oracle read at the call counter and the counter advanced
     only by answer-consuming instructions. -/
@@ -372,6 +416,22 @@ example : codeFork[2]? = some .dup ∧ isPushLike .dup = true ∧ codeFork[2 + 1
 example : codeJumps[4]? = some (.jump ((4 : Nat) + 1)) := rfl
 example : codeJumps[1]? = some (.jump 3) ∧ jumpTgt (.jump 3) = some 3 ∧ codeJumps[(3 : Int).toNat]? = some (.jump 5) :=
   ⟨rfl, rfl, rfl⟩
+/-- the same recorded answer as `extNative`, keyed by the poll at which the ORIGINAL code consumes it -/
+def extNativePolls : Nat → ExtRec := fun p => if p = 5 then { call := some (.val (.jv (.str [51]))) } else {}
+/-- … a clean oracle -/
+theorem extNativePolls_clean : ExtClean extNativePolls := by
+  apply json_answers_clean
+  intro k
+  unfold extNativePolls
+  by_cases h : k = 5 <;> simp [h]
+-- the poll-indexed whole-pass theorem applies to `3 as $x | $x | tostring` with the answer recorded at poll 5
+example : tags (history ⟨codeNative, never, extNativePolls⟩ 50 3 (initJ .null [])) = [0, 2, 2] := by decide +kernel
+example (c' : Array Instr) (h : optV codeNative = some c') :
+    history ⟨c', never, pollOracle c' (callOracle codeNative extNativePolls 50 3 (initJ .null [])) 50 3 (initJ .null [])⟩
+        50 3 (initJ .null []) =
+      history ⟨codeNative, never, extNativePolls⟩ 50 3 (initJ .null []) :=
+  optimizeCodeOps_preserves_outputs_polls codeNative c' (by decide +kernel) h extNativePolls extNativePolls_clean
+    50 3 .null [] (proper_of_tags (by decide +kernel))
 -- threading shortens the run by one poll under poll indexing (why the whole-run theorems use the call index)
 example : (next ⟨codeJumps, never, noExt⟩ 50 (initJ .null [])).2.polls = 5 ∧
     ((optV codeJumps).map fun c' => (next ⟨c', never, noExt⟩ 50 (initJ .null [])).2.polls) = some 4 := by
